@@ -453,3 +453,27 @@ package authenticode
 //@   before call io/ioutil.ReadAll(src): assert @metadata_member_is_prehashed_only_for_an_extended_signature src == iface(tr) && cur == msiTarExMeta && extended
 //@   ensures @a_digest_only_after_every_member_was_consumed ret1 == nil ==> !pending
 //@   loop 0 invariant !pending
+//@
+//@ func MsiToTar
+//@   property C18 C09 C11
+//@   nopanic
+//@   requires comdoc.cdfOK(cdf) && w != nil
+//@   ghost stage int = 0
+//@   before call prehashMsiDir(c, root, d): assert @metadata_of_the_whole_document_from_its_root c == cdf && root != nil && stage == 0
+//@   on call prehashMsiDir(_, _, _) ret (e): stage = ite(e == nil, 1, -1)
+//@   before call tarAddFile(t, n, data): assert @metadata_member_comes_first_under_the_name_the_digester_looks_for stage == 1 && n == msiTarExMeta
+//@   on call tarAddFile(_, _, _) ret (e): stage = ite(e == nil, 2, -1)
+//@   before call msiToTarDir(c, t, root, prefix): assert @then_every_stream_from_the_root_with_an_empty_path_prefix c == cdf && root != nil && prefix == "" && stage == 2
+//@   on call msiToTarDir(_, _, _, _) ret (e): stage = ite(e == nil, 3, -1)
+//@   before call (*archive/tar.Writer).Close(_): assert @archive_is_ended_after_the_last_member stage == 3
+//@   on call (*archive/tar.Writer).Close(_) ret (e): stage = ite(e == nil, 4, -1)
+//@   ensures @complete_archive_or_an_error ret0 == nil ==> stage == 4
+//@
+//@ func PrehashMSI
+//@   property C18 C11
+//@   nopanic
+//@   requires comdoc.cdfOK(cdf) && 1 <= hash && hash <= 19
+//@   ghost ok bool = false
+//@   before call prehashMsiDir(c, root, d): assert @metadata_of_the_whole_document_from_its_root c == cdf && root != nil
+//@   on call prehashMsiDir(_, _, _) ret (e): ok = (e == nil)
+//@   ensures @a_digest_only_when_every_entry_was_hashed ret1 == nil ==> ok
